@@ -40,6 +40,8 @@
 import DateutilVerif.Proofs.RRuleSetSpec
 import DateutilVerif.Proofs.CacheGlobal
 import DateutilVerif.Proofs.RSetHistoryInv
+import DateutilVerif.Generated.RRBaseCache
+import DateutilVerif.Proofs.MergePy
 
 namespace C10
 open RSet
@@ -90,6 +92,91 @@ theorem history_inv (cacheOn : Bool) (ops : List Op) (hsorted : ∀ op ∈ ops, 
 theorem history_inv_any (cacheOn : Bool) (ops : List Op) (hsorted : ∀ op ∈ ops, opSorted op) (hfit : AllFit {} ops) :
     Agree {} ops (runOps (newState cacheOn) ops) (specOps {} ops) :=
   history_good_any ops (newState cacheOn) {} (good_init cacheOn) hsorted hfit
+
+/-! ### the merge loop read from the source
+
+`Gen.genitemInit / genitemNext / genitemCmp / rsetIterProgram` (Generated/RSetMerge.lean) are `rruleset._genitem.__init__`,
+`__next__`, the four comparison methods and the generator `rruleset._iter` as `harness/translate_rrbase.py` parses them from
+/repo's working tree on every run — the statements in source order, from a strict vocabulary; `heapq.heapify / heapreplace /
+heappop` are named primitives with the contract "index 0 holds some minimal item" (`sel`).  `MergePy.runIter` is their meaning. -/
+
+/-- **gen_rset_iter_eq_model.** The translated `_iter` (with the translated `_genitem`) yields exactly the merge model
+    `RSet.iter sel inc exc` and counts `total` = its length — for ALL members and EVERY admissible heap discipline. -/
+theorem gen_rset_iter_eq_model (sel : Sel) (adm : Admissible sel) (m : Members) :
+    MergePy.runIter sel Gen.genitemInit Gen.genitemNext Gen.genitemCmp Gen.rsetIterProgram m =
+      some (iter sel m.inc m.exc, (iter sel m.inc m.exc).length) := by
+  unfold MergePy.runIter
+  have hs : (MergePy.setupOk Gen.rsetIterProgram && Gen.rsetIterProgram.publishesLenGuarded) = true := by decide
+  simp only [hs, Bool.not_true, Bool.false_eq_true, ↓reduceIte, MergePy.cursorsOf_eq]
+  obtain ⟨s', h1, h2, h3⟩ := MergePy.loop_eq adm (totalLen m.inc + 1) { rl := m.inc.filterMap mkCursor, ex := m.exc.filterMap mkCursor } rfl rfl
+  rw [h1]
+  simp only [Option.map_some, h2, h3, iter]
+  simp
+
+/-- **rset_iter_eq_spec_source.** Hence `rset_iter_eq_spec` holds of the code as written: the translated `_iter` yields the
+    ordered set (rrules ∪ rdates) \ (exrules ∪ exdates) of the members, each instant once, and publishes its size. -/
+theorem rset_iter_eq_spec_source (sel : Sel) (adm : Admissible sel) (m : Members)
+    (hinc : ∀ s ∈ m.inc, s.Pairwise (· ≤ ·)) (hexc : ∀ s ∈ m.exc, s.Pairwise (· ≤ ·)) :
+    MergePy.runIter sel Gen.genitemInit Gen.genitemNext Gen.genitemCmp Gen.rsetIterProgram m =
+      some (setSpec m.inc m.exc, (setSpec m.inc m.exc).length) := by
+  rw [gen_rset_iter_eq_model sel adm m, rset_iter_eq_spec sel adm m.inc m.exc hinc hexc]
+
+/-- `_genitem` as translated: `__init__` is `mkCursor`; `__next__` is `advanceTop` wherever the item sits (`heappop` only when it is at index 0,
+    `remove` + `heapify` otherwise); the comparison methods compare `dt` with the operator of their name -/
+theorem gen_genitem_eq_model :
+    (∀ st, MergePy.runInit Gen.genitemInit st = some (mkCursor st)) ∧
+    (∀ c isTop others, (MergePy.runNext Gen.genitemNext c isTop others).map (·.1) = some (advanceTop c others)) ∧
+    Gen.genitemCmp = { lt := .lt, gt := .gt, eq := .eq, ne := .ne } := by
+  refine ⟨fun st => ?_, fun c isTop others => ?_, rfl⟩
+  · cases st <;> simp [MergePy.runInit, Gen.genitemInit, mkCursor]
+  · cases h : c.rest <;> cases isTop <;> simp [MergePy.runNext, Gen.genitemNext, advanceTop, h]
+
+-- the obligation distinguishes programs: without the `heapreplace` after advancing the inclusion item the heap stays dirty
+example : MergePy.runIter selFirstMin Gen.genitemInit Gen.genitemNext Gen.genitemCmp
+            { Gen.rsetIterProgram with body := Gen.rsetIterProgram.body.dropLast } { rrules := [[1, 2]] } = none := by decide
+example : MergePy.runIter selFirstMin Gen.genitemInit Gen.genitemNext Gen.genitemCmp Gen.rsetIterProgram
+            { rrules := [[1, 2, 5], [2, 3]], rdates := [9, 0], exdates := [3] } = some ([0, 1, 2, 5, 9], 5) := by decide
+
+/-- **gen_mutators_eq_model.** `rruleset.rrule / rdate / exrule / exdate` as translated (each `@_invalidates_cache`, body
+    `self._<list>.append(x)`) with the translated decorator (`rv = f(…); self._invalidate_cache(); return rv`): each appends its
+    argument to ITS OWN member list and `_invalidate_cache()` runs after the append — what `RSet.applyOp` does for the four
+    mutator ops (`invalidate st { m with <list> := <list> ++ [x] }`); `rruleset.__init__` calls the base initialiser and starts
+    from four empty lists (`newState`). -/
+theorem gen_mutators_eq_model (m : Members) :
+    (∀ l, MergePy.runMutRule Gen.invalidatesDecorator Gen.rsetMutators .rrule m l = some ({ m with rrules := m.rrules ++ [l] }, true)) ∧
+    (∀ l, MergePy.runMutRule Gen.invalidatesDecorator Gen.rsetMutators .exrule m l = some ({ m with exrules := m.exrules ++ [l] }, true)) ∧
+    (∀ d, MergePy.runMutDate Gen.invalidatesDecorator Gen.rsetMutators .rdate m d = some ({ m with rdates := m.rdates ++ [d] }, true)) ∧
+    (∀ d, MergePy.runMutDate Gen.invalidatesDecorator Gen.rsetMutators .exdate m d = some ({ m with exdates := m.exdates ++ [d] }, true)) ∧
+    Gen.rsetInit = { callsBaseInit := true, emptyLists := [.rrule, .rdate, .exrule, .exdate] } :=
+  ⟨fun _ => rfl, fun _ => rfl, fun _ => rfl, fun _ => rfl, rfl⟩
+
+/-- **gen_base_init_eq_model.** `rrulebase.__init__` as translated, with the translated `_invalidate_cache`: `cache=True` gives
+    the fresh machine `Cache.initShared` (`newState true`: the generation counter is 1 — it is only ever compared for equality),
+    `cache=False` an object without cache list, `_cache_complete` False, `_len` None, generation 0. -/
+theorem gen_base_init_eq_model (o : CachePy.Obj) (src : List Int) (e : Option Py.PyErr) :
+    CachePy.runInitObj src e Gen.invalidateProgram true Gen.baseInitProgram o =
+      some { cached := true, sh := Cache.initShared src e, generation := 1 } ∧
+    CachePy.runInitObj src e Gen.invalidateProgram false Gen.baseInitProgram o =
+      some { cached := false, sh := { o.sh with complete := false, len := none }, generation := 0 } := by
+  constructor <;> simp [CachePy.runInitObj, CachePy.chooseBranch, Gen.baseInitProgram, CachePy.runFlat, CachePy.runI, CachePy.runIL,
+    Gen.invalidateProgram, Cache.initShared]
+
+/-- **gen_invalidate_eq_model.** `rrulebase._invalidate_cache` as translated from the source (`Gen.invalidateProgram`,
+    meaning `CachePy.runIL`) on a cached object, whatever its state: a fresh cache list, `_cache_complete` False, a fresh
+    (`_restartable`) generator over the members as they are now, lock released, `_len` None, generation counter + 1 — exactly
+    the fresh machine `Cache.initShared` that `RSet.invalidate` installs after every mutator (the previous generation is
+    pushed on `old`, whose length is the generation counter). -/
+theorem gen_invalidate_eq_model (o : CachePy.Obj) (src : List Int) (e : Option Py.PyErr) (hc : o.cached = true) :
+    CachePy.runIL src e Gen.invalidateProgram o =
+      some { cached := true, sh := Cache.initShared src e, generation := o.generation + 1 } := by
+  simp [Gen.invalidateProgram, CachePy.runIL, CachePy.runI, hc, Cache.initShared]
+
+/-- … and on an uncached object only the generation counter and `_len` change -/
+theorem gen_invalidate_uncached (o : CachePy.Obj) (src : List Int) (e : Option Py.PyErr) (hc : o.cached = false) :
+    CachePy.runIL src e Gen.invalidateProgram o = some { o with sh := { o.sh with len := none }, generation := o.generation + 1 } := by
+  simp [Gen.invalidateProgram, CachePy.runIL, CachePy.runI, hc]
+
+example : (invalidate (newState true) { rrules := [[1, 2]] }).cur.sh = Cache.initShared (Members.src { rrules := [[1, 2]] }) := rfl
 
 /-- in particular for histories whose iterators are all dropped at once (iterPartial k = `.take k`) -/
 theorem history_inv_dropped (cacheOn : Bool) (ops : List Op) (hsorted : ∀ op ∈ ops, opSorted op)
